@@ -75,6 +75,10 @@ const (
 	gPtr
 	gOpaque
 	gLineElt
+	gBytes // []byte and [N]byte: a Lean `List UInt8`
+	gFp    // base-field element (a coordinate of a point)
+	gHash  // hash.Hash object: nil-ness known at translation time, state = the list of Writes since Reset
+	gByteT // the element type `byte` (only inside array / slice types)
 )
 
 type gfield struct {
@@ -92,7 +96,7 @@ type gtype struct {
 
 func (t *gtype) leaf() bool {
 	switch t.k {
-	case gG, gG2, gS, gZ, gL, gBool, gErr:
+	case gG, gG2, gS, gZ, gL, gBool, gErr, gBytes, gFp:
 		return true
 	}
 	return false
@@ -114,6 +118,12 @@ func (t *gtype) lean() string {
 		return "Bool"
 	case gErr:
 		return "Res"
+	case gBytes:
+		return "List UInt8"
+	case gFp:
+		return "Fp"
+	case gInt:
+		return "Int"
 	}
 	reject("type %v has no Lean leaf type", t.k)
 	return ""
@@ -130,7 +140,10 @@ type gv struct {
 	n      int    // static int, static bool (0/1), static err: 0 = nil, 1 = `term`
 	fields []cellID
 	elems  []cellID
-	ptr    cellID // gPtr: 0 = nil
+	ptr    cellID   // gPtr: 0 = nil
+	nat    string   // run-time gInt that is a length: the same value as a Lean Nat term
+	strs   []string // gHash: the byte strings written since Reset
+	dirty  bool     // gG: a coordinate was overwritten, the value is no longer a group element
 }
 
 type uparam struct {
@@ -146,6 +159,8 @@ type gvariant struct {
 	rtypes  []*gtype
 	body    string
 	doc     string
+	inout   []int    // indices (in pointer-parameter order) of the pointer targets the function writes: returned after the results
+	inoutT  []*gtype // their types
 }
 
 type gpkg struct {
@@ -160,22 +175,49 @@ type gpkg struct {
 	variants         map[string]*gvariant
 	order            []string
 	inProgress       map[string]bool
+	files            []*ast.File
+	constExprs       map[string]ast.Expr
+	varInits         map[string]ast.Expr
+	uninterp         map[string]string // local functions NOT looked into: name -> Lean type of the parameter
+	classes          string            // implicit type arguments and classes of every generated def
+	typeArgs         string            // explicit type arguments at calls of generated defs
+	fixedParams      string            // parameters every def takes first
+	fixedArgs        string
+	hashNil          bool // this translation run: hash.Hash parameters are nil
+	nameSuffix       string
+	header           []string // extra defs at the head of the file (constants)
+	headerSeen       map[string]bool
 }
 
 func loadGroupPkg(label, dir, file string) *gpkg {
 	p := &gpkg{label: label, dir: dir, file: file, fset: token.NewFileSet(), funcs: map[string]*ast.FuncDecl{}, types: map[string]ast.Expr{},
-		aliases: map[string]bool{}, errVars: map[string]bool{}, imports: map[string]string{}, variants: map[string]*gvariant{}, inProgress: map[string]bool{}}
-	fn := filepath.Join(repo, dir, file)
-	f, err := parser.ParseFile(p.fset, fn, nil, 0)
-	if err != nil {
-		die("slpgroup: parse %s: %v", fn, err)
+		aliases: map[string]bool{}, errVars: map[string]bool{}, imports: map[string]string{}, variants: map[string]*gvariant{}, inProgress: map[string]bool{},
+		constExprs: map[string]ast.Expr{}, varInits: map[string]ast.Expr{}, uninterp: map[string]string{}, headerSeen: map[string]bool{},
+		classes: groupClasses, typeArgs: "(G := G) (G2 := G2) (S := S) (L := L)", fixedParams: "(toInt : S → Int)", fixedArgs: "toInt"}
+	for _, one := range strings.Split(file, ",") {
+		fn := filepath.Join(repo, dir, one)
+		f, err := parser.ParseFile(p.fset, fn, nil, 0)
+		if err != nil {
+			die("slpgroup: parse %s: %v", fn, err)
+		}
+		p.files = append(p.files, f)
+		if p.f == nil {
+			p.f = f
+		}
+		p.loadFile(f)
 	}
-	p.f = f
+	return p
+}
+
+func (p *gpkg) loadFile(f *ast.File) {
 	for _, im := range f.Imports {
 		path := strings.Trim(im.Path.Value, "\"")
 		name := strings.ReplaceAll(path[strings.LastIndex(path, "/")+1:], "-", "") // package names: bls12377, fiatshamir
 		if im.Name != nil {
 			name = im.Name.Name
+		}
+		if old, ok := p.imports[name]; ok && old != path {
+			die("slpgroup: %s: import name %s used for two packages", p.label, name)
 		}
 		p.imports[name] = path
 	}
@@ -206,6 +248,10 @@ func loadGroupPkg(label, dir, file string) *gpkg {
 						if i < len(sp.Values) {
 							if c, ok := sp.Values[i].(*ast.CallExpr); ok && gexpr(c.Fun) == "errors.New" {
 								p.errVars[nm.Name] = true
+							} else if d.Tok == token.CONST {
+								p.constExprs[nm.Name] = sp.Values[i]
+							} else {
+								p.varInits[nm.Name] = sp.Values[i]
 							}
 						}
 					}
@@ -213,7 +259,67 @@ func loadGroupPkg(label, dir, file string) *gpkg {
 			}
 		}
 	}
-	return p
+}
+
+// importDir: the repository directory of an imported gnark-crypto package
+func (p *gpkg) importDir(name string) (string, bool) {
+	path, ok := p.imports[name]
+	if !ok || !strings.HasPrefix(path, "github.com/consensys/gnark-crypto/") {
+		return "", false
+	}
+	return strings.TrimPrefix(path, "github.com/consensys/gnark-crypto/"), true
+}
+
+var fieldConstCache = map[string]*fieldConsts{}
+
+func fieldOf(dir string) *fieldConsts {
+	if fc, ok := fieldConstCache[dir]; ok {
+		return fc
+	}
+	fc := extractField(dir)
+	fieldConstCache[dir] = fc
+	return fc
+}
+
+// constInt: an integer constant expression of the package (sizeFr = fr.Bytes, sizeSignature = 2 * sizeFr, …)
+func (p *gpkg) constInt(e ast.Expr) (int, bool) {
+	switch e := e.(type) {
+	case *ast.BasicLit:
+		if e.Kind == token.INT {
+			n, err := strconv.ParseInt(e.Value, 0, 64)
+			if err == nil {
+				return int(n), true
+			}
+		}
+	case *ast.ParenExpr:
+		return p.constInt(e.X)
+	case *ast.Ident:
+		if ce, ok := p.constExprs[e.Name]; ok {
+			return p.constInt(ce)
+		}
+	case *ast.SelectorExpr:
+		if id, ok := e.X.(*ast.Ident); ok && (id.Name == "fr" || id.Name == "fp") && (e.Sel.Name == "Bytes" || e.Sel.Name == "Bits" || e.Sel.Name == "Limbs") {
+			if dir, ok := p.importDir(id.Name); ok {
+				if v, ok := fieldOf(dir).consts[e.Sel.Name]; ok {
+					return int(v.Int64()), true
+				}
+			}
+		}
+	case *ast.BinaryExpr:
+		a, ok1 := p.constInt(e.X)
+		b, ok2 := p.constInt(e.Y)
+		if ok1 && ok2 {
+			switch e.Op {
+			case token.ADD:
+				return a + b, true
+			case token.SUB:
+				return a - b, true
+			case token.MUL:
+				return a * b, true
+			}
+		}
+	}
+	return 0, false
 }
 
 // curvePkgName: the import name of the curve package (bn254 / curve …): the one import whose path is ecc/<curve>
@@ -233,7 +339,7 @@ func (p *gpkg) typeOf(e ast.Expr) *gtype {
 		case "bool":
 			return &gtype{k: gBool}
 		case "byte":
-			return &gtype{k: gOpaque}
+			return &gtype{k: gByteT}
 		}
 		te, ok := p.types[e.Name]
 		if !ok {
@@ -260,7 +366,11 @@ func (p *gpkg) typeOf(e ast.Expr) *gtype {
 		}
 		switch {
 		case p.isCurveImport(x.Name) && (e.Sel.Name == "G1Affine" || e.Sel.Name == "G1Jac"):
-			return &gtype{k: gG}
+			return &gtype{k: gG, name: e.Sel.Name}
+		case x.Name == "twistededwards" && e.Sel.Name == "PointAffine":
+			return &gtype{k: gG, name: "PointAffine"}
+		case x.Name == "fp" && e.Sel.Name == "Element":
+			return &gtype{k: gFp}
 		case p.isCurveImport(x.Name) && e.Sel.Name == "G2Affine":
 			return &gtype{k: gG2}
 		case p.isCurveImport(x.Name) && e.Sel.Name == "LineEvaluationAff":
@@ -270,7 +380,7 @@ func (p *gpkg) typeOf(e ast.Expr) *gtype {
 		case x.Name == "big" && e.Sel.Name == "Int":
 			return &gtype{k: gZ}
 		case x.Name == "hash" && e.Sel.Name == "Hash":
-			return &gtype{k: gOpaque}
+			return &gtype{k: gHash}
 		case x.Name == "ecc" && e.Sel.Name == "MultiExpConfig":
 			return &gtype{k: gOpaque}
 		}
@@ -279,8 +389,8 @@ func (p *gpkg) typeOf(e ast.Expr) *gtype {
 		return &gtype{k: gPtr, elem: p.typeOf(e.X)}
 	case *ast.Ellipsis:
 		et := p.typeOf(e.Elt)
-		if et.k == gOpaque {
-			return et
+		if et.k == gOpaque || et.k == gBytes {
+			return &gtype{k: gOpaque} // dataTranscript ...[]byte: only ever handed to an uninterpreted callee
 		}
 		return &gtype{k: gSlice, elem: et}
 	case *ast.ArrayType:
@@ -295,14 +405,23 @@ func (p *gpkg) typeOf(e ast.Expr) *gtype {
 		if et.k == gOpaque {
 			return et
 		}
+		if et.k == gByteT {
+			if e.Len == nil {
+				return &gtype{k: gBytes, n: -1}
+			}
+			n, ok := p.constInt(e.Len)
+			if !ok {
+				reject("byte array length %s", gexpr(e.Len))
+			}
+			return &gtype{k: gBytes, n: n}
+		}
 		if e.Len == nil {
 			return &gtype{k: gSlice, elem: et}
 		}
-		bl, ok := e.Len.(*ast.BasicLit)
+		n, ok := p.constInt(e.Len)
 		if !ok {
 			reject("array length %s", gexpr(e.Len))
 		}
-		n, _ := strconv.Atoi(bl.Value)
 		return &gtype{k: gArray, elem: et, n: n}
 	}
 	reject("unsupported type expression %s", gexpr(e))
@@ -326,16 +445,48 @@ func (s *gscope) lookup(n string) (cellID, bool) {
 }
 
 type gtr struct {
-	p       *gpkg
-	v       *gvariant
-	store   map[cellID]*gv
-	names   map[cellID]string
-	ro      map[cellID]bool
-	next    cellID
-	lines   []string
-	counter map[string]int
-	nSite   int
-	fname   string
+	p          *gpkg
+	v          *gvariant
+	store      map[cellID]*gv
+	names      map[cellID]string
+	ro         map[cellID]bool
+	next       cellID
+	lines      []string
+	counter    map[string]int
+	nSite      int
+	fname      string
+	ptrTargets []cellID                     // targets of the pointer parameters, in parameter order
+	ptrOwner   map[cellID]int               // cell (any depth below a pointer target) -> index in ptrTargets
+	written    map[int]bool                 // pointer targets written by the body
+	inout      []int                        // second pass: the targets returned after the results
+	coords     map[cellID]map[string]cellID // coordinate cells of a point variable
+	coordOf    map[cellID]cellID            // coordinate cell -> its point
+}
+
+func (x *gtr) markOwner(c cellID, idx int) {
+	x.ptrOwner[c] = idx
+	v := x.store[c]
+	for _, f := range v.fields {
+		x.markOwner(f, idx)
+	}
+	for _, e := range v.elems {
+		x.markOwner(e, idx)
+	}
+}
+
+// noteWrite: bookkeeping of a write to cell c
+func (x *gtr) noteWrite(c cellID) {
+	if i, ok := x.ptrOwner[c]; ok {
+		x.written[i] = true
+	}
+	if o, ok := x.coordOf[c]; ok {
+		// a coordinate of a point is overwritten: the point variable no longer holds a group element
+		ov := *x.store[o]
+		ov.dirty = true
+		x.store[o] = &ov
+	} else {
+		delete(x.coords, c) // the point is re-assigned: its coordinate cells are stale
+	}
 }
 
 func (x *gtr) cloneStore() map[cellID]*gv {
@@ -363,6 +514,13 @@ func zeroTerm(t *gtype) string {
 		return "(0 : S)"
 	case gZ:
 		return "(0 : Int)"
+	case gFp:
+		return "(0 : Fp)"
+	case gBytes:
+		if t.n < 0 {
+			return "([] : List UInt8)"
+		}
+		return fmt.Sprintf("(List.replicate %d (0 : UInt8))", t.n)
 	}
 	reject("no zero value for a variable of this type (%v)", t.k)
 	return ""
@@ -371,7 +529,7 @@ func zeroTerm(t *gtype) string {
 // zero: a fresh cell holding the zero value of t (slices: nil slice of length 0)
 func (x *gtr) zero(name string, t *gtype) cellID {
 	switch t.k {
-	case gG, gS, gZ:
+	case gG, gS, gZ, gFp, gBytes:
 		return x.newCell(name, &gv{t: t, term: zeroTerm(t)})
 	case gG2:
 		return x.newCell(name, &gv{t: t, term: zeroTerm(t)})
@@ -406,11 +564,17 @@ func (x *gtr) zero(name string, t *gtype) cellID {
 func (x *gtr) param(name string, t *gtype, lens *[]int, ro bool) cellID {
 	var c cellID
 	switch t.k {
-	case gG, gG2, gS, gZ, gL, gBool:
+	case gG, gG2, gS, gZ, gL, gBool, gBytes, gFp:
 		x.v.binders = append(x.v.binders, fmt.Sprintf("(%s : %s)", name, t.lean()))
 		c = x.newCell(name, &gv{t: t, term: name})
 	case gOpaque:
 		c = x.newCell(name, &gv{t: t})
+	case gHash:
+		n := 1
+		if x.p.hashNil {
+			n = 0
+		}
+		c = x.newCell(name, &gv{t: t, static: true, n: n})
 	case gStruct:
 		v := &gv{t: t}
 		for _, f := range t.fields {
@@ -435,7 +599,10 @@ func (x *gtr) param(name string, t *gtype, lens *[]int, ro bool) cellID {
 		}
 		c = x.newCell(name, v)
 	case gPtr:
-		tgt := x.param(name, t.elem, lens, true)
+		// the target may be written: the translation is run twice, the second time returning the written targets (gvariant.inout)
+		tgt := x.param(name, t.elem, lens, false)
+		x.ptrTargets = append(x.ptrTargets, tgt)
+		x.markOwner(tgt, len(x.ptrTargets)-1)
 		c = x.newCell(name, &gv{t: t, ptr: tgt})
 	default:
 		reject("parameter %s of unsupported type", name)
@@ -485,9 +652,17 @@ func (x *gtr) setLeaf(c cellID, rhs string) {
 	if !old.t.leaf() || old.t.k == gErr || old.t.k == gBool {
 		reject("setLeaf on a non-leaf cell %s", x.names[c])
 	}
+	x.noteWrite(c)
 	n := x.fresh(x.names[c])
 	x.lines = append(x.lines, fmt.Sprintf("let %s : %s := %s", n, old.t.lean(), rhs))
 	x.store[c] = &gv{t: old.t, term: n}
+}
+
+// useG: a point value is read as a group element
+func (x *gtr) useG(v *gv) {
+	if v.dirty {
+		reject("%s: a point is used after one of its coordinates was overwritten", x.fname)
+	}
 }
 
 // assign: Go assignment of the value v to the cell dst (deep copy of structs / arrays, headers of slices / pointers)
@@ -500,9 +675,11 @@ func (x *gtr) assign(dst cellID, v *gv) {
 		reject("assignment between different kinds (%s)", x.names[dst])
 	}
 	switch d.t.k {
-	case gG, gG2, gS, gZ:
+	case gG, gG2, gS, gZ, gBytes, gFp:
+		x.useG(v)
 		x.setLeaf(dst, v.term)
-	case gL, gBool, gErr, gInt, gOpaque, gSlice, gPtr:
+	case gL, gBool, gErr, gInt, gOpaque, gSlice, gPtr, gHash:
+		x.noteWrite(dst)
 		x.store[dst] = v
 	case gStruct:
 		if len(d.fields) != len(v.fields) {
@@ -567,6 +744,9 @@ func (x *gtr) lval(s *gscope, e ast.Expr) cellID {
 			base = bv.ptr
 			bv = x.store[base]
 		}
+		if bv.t.k == gG && (e.Sel.Name == "X" || e.Sel.Name == "Y" || e.Sel.Name == "Z") {
+			return x.coordCell(base, e.Sel.Name)
+		}
 		if bv.t.k != gStruct {
 			reject("%s: field %s of a non-struct", x.fname, gexpr(e))
 		}
@@ -594,6 +774,48 @@ func (x *gtr) lval(s *gscope, e ast.Expr) cellID {
 	}
 	reject("%s: not addressable: %s", x.fname, gexpr(e))
 	return 0
+}
+
+// coordCell: the cell of a coordinate of the point held in cell c. Reading it is an uninterpreted PARAMETER function
+// (jacX / jacZ : G → Fp for a Jacobian point, affX / affY for an affine one) of the current value of the point.
+func (x *gtr) coordCell(c cellID, coord string) cellID {
+	if m, ok := x.coords[c]; ok {
+		if cc, ok := m[coord]; ok {
+			return cc
+		}
+	}
+	pv := x.store[c]
+	// (a coordinate that was not overwritten still holds the coordinate of the last group-element value: pv.term)
+	var fn string
+	switch pv.t.name {
+	case "G1Jac":
+		fn = "jac" + coord
+	case "G1Affine", "PointAffine":
+		if coord == "Z" {
+			reject("%s: Z coordinate of an affine point", x.fname)
+		}
+		fn = "aff" + coord
+	default:
+		reject("%s: coordinate of a point of unknown representation", x.fname)
+	}
+	x.need(fn, "G → Fp", false)
+	cc := x.newCell(x.names[c]+"_"+coord, &gv{t: &gtype{k: gFp}, term: fmt.Sprintf("%s %s", fn, gparen(pv.term))})
+	if _, ok := x.ptrOwner[c]; ok {
+		x.ptrOwner[cc] = x.ptrOwner[c]
+	}
+	if x.coords[c] == nil {
+		x.coords[c] = map[string]cellID{}
+	}
+	x.coords[c][coord] = cc
+	x.coordOf[cc] = c
+	return cc
+}
+
+func intTerm(v *gv) string {
+	if v.static {
+		return fmt.Sprintf("(%d : Int)", v.n)
+	}
+	return v.term
 }
 
 func (x *gtr) errTerm(v *gv) string {
@@ -637,6 +859,19 @@ func (x *gtr) eval(s *gscope, e ast.Expr) *gv {
 		if x.p.errVars[e.Name] {
 			return &gv{t: &gtype{k: gErr}, static: true, n: 1, term: fmt.Sprintf("(Res.err %q)", e.Name)}
 		}
+		if _, ok := x.p.constExprs[e.Name]; ok {
+			if n, ok := x.p.constInt(e); ok {
+				return mkInt(n)
+			}
+		}
+		if init, ok := x.p.varInits[e.Name]; ok {
+			// package-level variable: its initialiser is evaluated here (only `fr.Modulus()` is known); read-only
+			if c, ok := init.(*ast.CallExpr); ok && gexpr(c.Fun) == "fr.Modulus" {
+				v := x.eval(&gscope{vars: map[string]cellID{}}, init)
+				x.ro[v.ptr] = true
+				return v
+			}
+		}
 		reject("%s: unknown identifier %s", x.fname, e.Name)
 	case *ast.SelectorExpr, *ast.IndexExpr, *ast.StarExpr:
 		return x.store[x.lval(s, e)]
@@ -666,12 +901,33 @@ func (x *gtr) eval(s *gscope, e ast.Expr) *gv {
 	case *ast.CompositeLit:
 		return x.composite(s, e)
 	case *ast.SliceExpr:
-		// only x[:] of an opaque line table
-		if e.Low == nil && e.High == nil && e.Max == nil {
-			v := x.eval(s, e.X)
-			if v.t.k == gL {
-				return v
+		// x[:] of an opaque line table; x[lo:hi] of a byte string with bounds known at translation time
+		v := x.eval(s, e.X)
+		if e.Low == nil && e.High == nil && e.Max == nil && (v.t.k == gL || v.t.k == gBytes) {
+			return v
+		}
+		if v.t.k == gBytes && e.Max == nil {
+			// NOTE: Go panics when hi > cap; List.take / List.drop truncate. The callers establish the length first.
+			t := gparen(v.term)
+			lo, hi := -1, -1
+			if e.Low != nil {
+				lo = x.staticInt(s, e.Low)
 			}
+			if e.High != nil {
+				hi = x.staticInt(s, e.High)
+			}
+			if v.t.n >= 0 && lo <= 0 && hi == v.t.n {
+				return v // the whole array
+			}
+			switch {
+			case lo > 0 && hi >= 0:
+				t = fmt.Sprintf("((%s.drop %d).take %d)", t, lo, hi-lo)
+			case lo > 0:
+				t = fmt.Sprintf("(%s.drop %d)", t, lo)
+			case hi >= 0:
+				t = fmt.Sprintf("(%s.take %d)", t, hi)
+			}
+			return &gv{t: &gtype{k: gBytes, n: -1}, term: t}
 		}
 		reject("%s: slice expression %s", x.fname, gexpr(e))
 	case *ast.CallExpr:
@@ -721,6 +977,22 @@ func (x *gtr) binary(s *gscope, e *ast.BinaryExpr) *gv {
 	}
 	a := x.eval(s, e.X)
 	b := x.eval(s, e.Y)
+	if a.t.k == gHash && b.t.k == gErr && b.static && b.n == 0 && (e.Op == token.EQL || e.Op == token.NEQ) {
+		// hFunc == nil / hFunc != nil: decided by the specialisation
+		return mkBool((a.n == 0) == (e.Op == token.EQL))
+	}
+	if a.t.k == gInt && b.t.k == gInt && (!a.static || !b.static) {
+		// run-time integers (len of a byte string, big.Int.Cmp): exact Int arithmetic
+		ops := map[token.Token]string{token.EQL: "==", token.NEQ: "!="}
+		if op, ok := ops[e.Op]; ok {
+			return &gv{t: &gtype{k: gBool}, term: fmt.Sprintf("(%s %s %s)", intTerm(a), op, intTerm(b))}
+		}
+		cmp := map[token.Token]string{token.LSS: "<", token.LEQ: "≤", token.GTR: ">", token.GEQ: "≥"}
+		if op, ok := cmp[e.Op]; ok {
+			return &gv{t: &gtype{k: gBool}, term: fmt.Sprintf("(decide (%s %s %s))", intTerm(a), op, intTerm(b))}
+		}
+		reject("%s: run-time integer expression %s", x.fname, gexpr(e))
+	}
 	if a.t.k == gInt && b.t.k == gInt {
 		if !a.static || !b.static {
 			reject("%s: integer expression %s not known at translation time", x.fname, gexpr(e))
@@ -849,6 +1121,7 @@ func (x *gtr) ptrArg(s *gscope, e ast.Expr, want gkind) *gv {
 	if t.t.k != want {
 		reject("%s: argument %s has the wrong type", x.fname, gexpr(e))
 	}
+	x.useG(t)
 	return t
 }
 
@@ -885,6 +1158,10 @@ func (x *gtr) method(s *gscope, recv cellID, name string, c *ast.CallExpr) []*gv
 	rv := x.store[recv]
 	self := func() []*gv { return []*gv{x.ptrTo(recv)} }
 	nilErr := &gv{t: &gtype{k: gErr}, static: true, n: 0}
+	if rs, ok := x.sigMethod(s, recv, name, c); ok {
+		return rs
+	}
+	x.useG(rv)
 	switch rv.t.k {
 	case gG:
 		switch name {
@@ -1034,12 +1311,21 @@ func (x *gtr) call(s *gscope, c *ast.CallExpr) []*gv {
 			reject("%s: variadic call with a non-opaque tail", x.fname)
 		}
 	}
+	if rs, ok := x.sigCall(s, c); ok {
+		return rs
+	}
 	switch f := c.Fun.(type) {
 	case *ast.Ident:
 		switch f.Name {
 		case "len":
 			x.nargs(c, 1)
 			v := x.eval(s, c.Args[0])
+			if v.t.k == gBytes {
+				if v.t.n >= 0 {
+					return []*gv{mkInt(v.t.n)}
+				}
+				return []*gv{{t: &gtype{k: gInt}, term: fmt.Sprintf("(Int.ofNat %s.length)", gparen(v.term)), nat: gparen(v.term) + ".length"}}
+			}
 			if v.t.k != gSlice && v.t.k != gArray {
 				reject("%s: len of %s", x.fname, gexpr(c.Args[0]))
 			}
@@ -1047,6 +1333,19 @@ func (x *gtr) call(s *gscope, c *ast.CallExpr) []*gv {
 		case "make":
 			x.nargs(c, 2)
 			t := x.p.typeOf(c.Args[0])
+			if t.k == gBytes {
+				nv := x.eval(s, c.Args[1])
+				if nv.t.k != gInt {
+					reject("%s: make length", x.fname)
+				}
+				if nv.static {
+					return []*gv{{t: &gtype{k: gBytes, n: -1}, term: fmt.Sprintf("(List.replicate %d (0 : UInt8))", nv.n)}}
+				}
+				if nv.nat == "" {
+					reject("%s: make([]byte, n) with n not a length", x.fname)
+				}
+				return []*gv{{t: &gtype{k: gBytes, n: -1}, term: fmt.Sprintf("(List.replicate %s (0 : UInt8))", nv.nat)}}
+			}
 			if t.k != gSlice {
 				reject("%s: make of a non-slice", x.fname)
 			}
@@ -1072,7 +1371,7 @@ func (x *gtr) call(s *gscope, c *ast.CallExpr) []*gv {
 			ds := x.sliceArg(s, c.Args[1], gG)
 			vs := x.sliceArg(s, c.Args[2], gS)
 			for _, a := range c.Args[3:] {
-				if x.eval(s, a).t.k != gOpaque {
+				if k := x.eval(s, a).t.k; k != gOpaque && k != gHash {
 					reject("%s: deriveGamma extra argument", x.fname)
 				}
 			}
@@ -1176,14 +1475,18 @@ func (x *gtr) call(s *gscope, c *ast.CallExpr) []*gv {
 // flatten: the leaf terms of a value, and the slice lengths met on the way (the specialisation key)
 func (x *gtr) flatten(v *gv, terms *[]string, lens *[]int) {
 	switch v.t.k {
-	case gG, gG2, gS, gZ, gL, gBool:
+	case gG, gG2, gS, gZ, gL, gBool, gBytes, gFp:
+		x.useG(v)
 		if v.t.k == gBool && v.static {
-			reject("static bool passed to a function")
+			*terms = append(*terms, map[int]string{0: "false", 1: "true"}[v.n])
+			return
 		}
 		*terms = append(*terms, v.term)
+	case gInt:
+		*terms = append(*terms, intTerm(v))
 	case gErr:
 		*terms = append(*terms, x.errTerm(v))
-	case gOpaque:
+	case gOpaque, gHash:
 	case gStruct:
 		for _, c := range v.fields {
 			x.flatten(x.store[c], terms, lens)
@@ -1226,7 +1529,7 @@ func balancedOuter(t string) bool {
 	return d == 0
 }
 
-func paren(t string) string {
+func gparen(t string) string {
 	if needParens(t) {
 		return "(" + t + ")"
 	}
@@ -1291,8 +1594,14 @@ func (x *gtr) fromLeaves(name string, t *gtype, terms *[]string) *gv {
 func (x *gtr) callFn(s *gscope, fd *ast.FuncDecl, key string, recv *cellID, c *ast.CallExpr) []*gv {
 	var terms []string
 	var lens []int
+	var ptrCells []cellID // targets of the pointer arguments, in parameter order (receiver first)
 	if recv != nil {
 		x.flatten(x.store[*recv], &terms, &lens)
+		if fd.Recv != nil {
+			if _, isPtr := fd.Recv.List[0].Type.(*ast.StarExpr); isPtr {
+				ptrCells = append(ptrCells, *recv)
+			}
+		}
 	}
 	np := 0
 	for _, fl := range fd.Type.Params.List {
@@ -1310,6 +1619,9 @@ func (x *gtr) callFn(s *gscope, fd *ast.FuncDecl, key string, recv *cellID, c *a
 		if variadic && i >= np-1 && v.t.k != gOpaque {
 			reject("%s: non-opaque variadic argument in the call of %s", x.fname, key)
 		}
+		if v.t.k == gPtr {
+			ptrCells = append(ptrCells, v.ptr)
+		}
 		x.flatten(v, &terms, &lens)
 	}
 	cv := x.p.translate(key, lens)
@@ -1319,17 +1631,23 @@ func (x *gtr) callFn(s *gscope, fd *ast.FuncDecl, key string, recv *cellID, c *a
 		}
 		x.need(u.name, u.typ, false)
 	}
-	args := []string{"toInt"}
+	var args []string
+	if x.p.fixedArgs != "" {
+		args = append(args, x.p.fixedArgs)
+	}
 	for _, u := range cv.uparams {
 		args = append(args, u.name)
 	}
 	for _, t := range terms {
-		args = append(args, paren(t))
+		args = append(args, gparen(t))
 	}
 	r := x.fresh("r")
-	x.lines = append(x.lines, fmt.Sprintf("let %s := %s (G := G) (G2 := G2) (S := S) (L := L) %s", r, cv.name, strings.Join(args, " ")))
+	x.lines = append(x.lines, fmt.Sprintf("let %s := %s %s %s", r, cv.name, x.p.typeArgs, strings.Join(args, " ")))
 	nl := 0
 	for _, rt := range cv.rtypes {
+		nl += countLeaves(rt)
+	}
+	for _, rt := range cv.inoutT {
 		nl += countLeaves(rt)
 	}
 	var leafTerms []string
@@ -1339,6 +1657,13 @@ func (x *gtr) callFn(s *gscope, fd *ast.FuncDecl, key string, recv *cellID, c *a
 	var out []*gv
 	for i, rt := range cv.rtypes {
 		out = append(out, x.fromLeaves(fmt.Sprintf("%s_%d", r, i), rt, &leafTerms))
+	}
+	// the pointer targets the callee writes come back after the results: store them into the caller's cells
+	for j, idx := range cv.inout {
+		if idx >= len(ptrCells) {
+			reject("%s: callee %s writes a pointer target this call site cannot name", x.fname, key)
+		}
+		x.assign(ptrCells[idx], x.fromLeaves(fmt.Sprintf("%s_w%d", r, j), cv.inoutT[j], &leafTerms))
 	}
 	return out
 }
@@ -1539,6 +1864,17 @@ func (x *gtr) rangeStmt(s *gscope, st *ast.RangeStmt, rest func() string) string
 }
 
 func (x *gtr) assignStmt(s *gscope, st *ast.AssignStmt) {
+	if st.Tok == token.ADD_ASSIGN && len(st.Lhs) == 1 && len(st.Rhs) == 1 {
+		// n += k on integers known at translation time
+		c := x.lval(s, st.Lhs[0])
+		v := x.store[c]
+		if v.t.k != gInt || !v.static {
+			reject("%s: += on %s", x.fname, gexpr(st.Lhs[0]))
+		}
+		x.noteWrite(c)
+		x.store[c] = mkInt(v.n + x.staticInt(s, st.Rhs[0]))
+		return
+	}
 	if st.Tok != token.DEFINE && st.Tok != token.ASSIGN {
 		reject("%s: assignment operator %s", x.fname, st.Tok)
 	}
@@ -1571,8 +1907,11 @@ func (x *gtr) assignStmt(s *gscope, st *ast.AssignStmt) {
 					// new variable: a fresh cell of the value's type holding a copy
 					var c cellID
 					switch v.t.k {
-					case gInt, gBool, gErr, gSlice, gPtr, gOpaque, gL:
+					case gInt, gBool, gErr, gSlice, gPtr, gOpaque, gL, gHash:
 						c = x.newCell(id.Name, v)
+						if v.t.k == gPtr && v.ptr != 0 && (x.names[v.ptr] == "new" || x.names[v.ptr] == "bigLit" || x.names[v.ptr] == "frMod") {
+							x.renameCell(v.ptr, id.Name) // x := new(T): the cell is named after the variable
+						}
 						if v.t.k == gSlice {
 							for i, e := range v.elems { // a slice made here: its cells are named after the variable
 								if strings.HasPrefix(x.names[e], "mk_") {
@@ -1618,6 +1957,9 @@ func (x *gtr) ret(s *gscope, st *ast.ReturnStmt) string {
 		}
 		x.flatten(v, &terms, &lens)
 	}
+	for _, i := range x.inout {
+		x.flatten(x.store[x.ptrTargets[i]], &terms, &lens)
+	}
 	if len(lens) != 0 {
 		reject("%s: slice result", x.fname)
 	}
@@ -1649,6 +1991,15 @@ func lensKey(lens []int) string {
 
 func (p *gpkg) translate(key string, lens []int) *gvariant {
 	name := strings.ReplaceAll(key, ".", "_") + lensKey(lens)
+	if fd, ok := p.funcs[key]; ok && p.nameSuffix != "" {
+		// the hash / no-hash specialisation only concerns functions that take a hash.Hash
+		for _, fl := range fd.Type.Params.List {
+			if gexpr(fl.Type) == "hash.Hash" {
+				name += p.nameSuffix
+				break
+			}
+		}
+	}
 	if v, ok := p.variants[name]; ok {
 		return v
 	}
@@ -1657,12 +2008,29 @@ func (p *gpkg) translate(key string, lens []int) *gvariant {
 	}
 	p.inProgress[name] = true
 	defer delete(p.inProgress, name)
+	// first pass: which pointer targets does the body write? second pass (if any): they are returned after the results
+	v, written := p.translateOnce(key, name, lens, nil)
+	if len(written) > 0 {
+		var inout []int
+		for i := range written {
+			inout = append(inout, i)
+		}
+		sort.Ints(inout)
+		v, _ = p.translateOnce(key, name, lens, inout)
+	}
+	p.variants[name] = v
+	p.order = append(p.order, name)
+	return v
+}
+
+func (p *gpkg) translateOnce(key, name string, lens []int, inout []int) (*gvariant, map[int]bool) {
 	fd, ok := p.funcs[key]
 	if !ok || fd.Body == nil {
 		reject("function %s not found in %s/%s", key, p.dir, p.file)
 	}
-	v := &gvariant{name: name}
-	x := &gtr{p: p, v: v, store: map[cellID]*gv{}, names: map[cellID]string{}, ro: map[cellID]bool{}, counter: map[string]int{}, fname: p.label + "." + name}
+	v := &gvariant{name: name, inout: inout}
+	x := &gtr{p: p, v: v, store: map[cellID]*gv{}, names: map[cellID]string{}, ro: map[cellID]bool{}, counter: map[string]int{}, fname: p.label + "." + name,
+		ptrOwner: map[cellID]int{}, written: map[int]bool{}, inout: inout, coords: map[cellID]map[string]cellID{}, coordOf: map[cellID]cellID{}}
 	top := &gscope{vars: map[string]cellID{}}
 	rem := append([]int(nil), lens...)
 	if fd.Recv != nil {
@@ -1693,6 +2061,9 @@ func (p *gpkg) translate(key string, lens []int) *gvariant {
 		}
 		v.rtypes = append(v.rtypes, p.typeOf(fl.Type))
 	}
+	for _, i := range inout {
+		v.inoutT = append(v.inoutT, x.store[x.ptrTargets[i]].t)
+	}
 	v.body = x.capture(func() string {
 		return x.exec(top, fd.Body.List, func() string {
 			reject("%s: function body ends without return", x.fname)
@@ -1700,13 +2071,17 @@ func (p *gpkg) translate(key string, lens []int) *gvariant {
 		})
 	})
 	pos := p.fset.Position(fd.Pos())
-	v.doc = fmt.Sprintf("%s/%s:%d  %s", p.dir, p.file, pos.Line, key)
+	v.doc = fmt.Sprintf("%s/%s:%d  %s", p.dir, filepath.Base(pos.Filename), pos.Line, key)
 	if len(lens) > 0 {
 		v.doc += fmt.Sprintf("  with slice lengths %v (in parameter order)", lens)
 	}
-	p.variants[name] = v
-	p.order = append(p.order, name)
-	return v
+	if strings.HasSuffix(name, p.nameSuffix) && p.nameSuffix != "" {
+		v.doc += fmt.Sprintf("  [specialisation %s]", strings.TrimPrefix(p.nameSuffix, "_"))
+	}
+	if len(inout) > 0 {
+		v.doc += fmt.Sprintf("; after the results: the final value of the pointer parameter(s) #%v it writes", inout)
+	}
+	return v, x.written
 }
 
 func (v *gvariant) resultType() string {
@@ -1730,6 +2105,9 @@ func (v *gvariant) resultType() string {
 	for _, t := range v.rtypes {
 		walk(t)
 	}
+	for _, t := range v.inoutT {
+		walk(t)
+	}
 	return strings.Join(ts, " × ")
 }
 
@@ -1742,15 +2120,20 @@ func (p *gpkg) emit(ns, fileName, extra string) {
 	b.WriteString("set_option linter.unusedVariables false\n")
 	fmt.Fprintf(&b, "namespace GV.Gen.Verifier.%s\nopen GV.Gen.Verifier\n\n", ns)
 	b.WriteString(extra)
+	for _, h := range p.header {
+		b.WriteString(h + "\n")
+	}
 	for _, n := range p.order {
 		v := p.variants[n]
 		var ps []string
-		ps = append(ps, "(toInt : S → Int)")
+		if p.fixedParams != "" {
+			ps = append(ps, p.fixedParams)
+		}
 		for _, u := range v.uparams {
 			ps = append(ps, fmt.Sprintf("(%s : %s)", u.name, u.typ))
 		}
 		ps = append(ps, v.binders...)
-		fmt.Fprintf(&b, "/-- %s -/\ndef %s %s\n    %s : %s :=\n%s\n\n", v.doc, v.name, groupClasses, strings.Join(ps, " "), v.resultType(), indentLines(v.body, "  "))
+		fmt.Fprintf(&b, "/-- %s -/\ndef %s %s\n    %s : %s :=\n%s\n\n", v.doc, v.name, p.classes, strings.Join(ps, " "), v.resultType(), indentLines(v.body, "  "))
 	}
 	fmt.Fprintf(&b, "end GV.Gen.Verifier.%s\n", ns)
 	writeFile(filepath.Join("Verifier", fileName), b.String())
@@ -1792,6 +2175,19 @@ func (p *gpkg) checkNewSRSLines() string {
 	}
 	return fmt.Sprintf("/-- NewSRS: every one of the %d assignments to `srs.Vk.Lines[i]` is `PrecomputeLines(srs.Vk.G2[i])` (checked by the translator on this run),\nso `pairingCheckFixedQ [A, B] vk.Lines` stands for  e(A, vk.G2[0]) · e(B, vk.G2[1]) = 1,  vk.G2 = [G₂, [α]G₂]. -/\ndef NewSRS_lines_from_G2 : List Nat := %v\n\n",
 		seen[0]+seen[1], strings.ReplaceAll(fmt.Sprint([]int{seen[0], seen[1]}), " ", ", "))
+}
+
+const sigClasses = "{G Fp : Type} [_root_.Add G] [_root_.Sub G] [_root_.Neg G] [_root_.Zero G] [_root_.SMul Int G] [_root_.Add Fp] [_root_.Sub Fp] [_root_.Mul Fp] [_root_.Inv Fp] [_root_.Zero Fp] [_root_.BEq Fp]"
+
+var ecdsaCurves = []string{"bn254", "bls12-377", "bls12-381", "bls24-315", "bls24-317", "bw6-633", "bw6-761", "secp256k1", "stark-curve", "grumpkin"}
+
+func newSigPkg(label, dir, files string) *gpkg {
+	p := loadGroupPkg(label, dir, files)
+	p.classes = sigClasses
+	p.typeArgs = "(G := G) (Fp := Fp)"
+	p.fixedParams = ""
+	p.fixedArgs = ""
+	return p
 }
 
 var groupCurves = []string{"bn254", "bls12-377", "bls12-381", "bls24-315", "bls24-317", "bw6-633", "bw6-761"}
@@ -1843,6 +2239,19 @@ func runGroup() {
 			}
 			p.emit("pedersen_"+lc, "Pedersen_"+lc+".lean", "")
 			names = append(names, "Pedersen_"+lc)
+		})
+	}
+	for _, c := range ecdsaCurves {
+		lc := strings.ReplaceAll(c, "-", "_")
+		guard("ecdsa "+c, func() {
+			p := newSigPkg("ecdsa_"+lc, "ecc/"+c+"/ecdsa", "ecdsa.go,marshal.go")
+			p.uninterp["HashToInt"] = "List UInt8 → Int"
+			p.translate("Signature.SetBytes", nil)
+			p.nameSuffix = "_hash"
+			p.translate("PublicKey.Verify", nil)
+			p.hashNil, p.nameSuffix = true, "_nohash"
+			p.translate("PublicKey.Verify", nil)
+			p.emit("ecdsa_"+lc, "Ecdsa_"+lc+".lean", "")
 		})
 	}
 	if len(failures) > 0 {
